@@ -98,7 +98,7 @@ func genRe(r *rand.Rand, d int) string {
 }
 
 // TestDifferentialCampaign is a dev aid (FUZZ=<seed> to run): random small patterns and inputs compared with
-// regexp, mismatches grouped by strategy. It found the word-boundary/anchor combination defect of UseBoth.
+// regexp (FUZZMODE=longest: both in leftmost-longest mode), mismatches grouped by strategy. It found the word-boundary/anchor combination defect of UseBoth.
 func TestDifferentialCampaign(t *testing.T) {
 	seed, err := strconv.Atoi(os.Getenv("FUZZ"))
 	if err != nil {
@@ -118,6 +118,10 @@ func TestDifferentialCampaign(t *testing.T) {
 			continue
 		}
 		e, _ := meta.Compile(pat)
+		if os.Getenv("FUZZMODE") == "longest" {
+			std.Longest()
+			re.Longest()
+		}
 		for i := 0; i < 60; i++ {
 			n := rng.Intn(12)
 			if os.Getenv("FUZZLONG") != "" {
